@@ -174,11 +174,17 @@ class Database(ImpExp):
                             self.db.__delitem__(_key)
                         else:
                             return
+                    else:
+                        # the node below is not (or no longer) part of this branch
+                        return
                 else:
                     if isinstance(_node, NodeInfo) and _node.subordinate:
                         for _s in _node.subordinate:
                             self.delete_sub_tree(_s)
                     self.db.__delitem__(_key)
+            elif _sub is None:
+                # the leaf does not exist; there is nothing to remove
+                return
             _sub = _key
 
     def update(self, path: List[str], new_info: dict):
